@@ -10,9 +10,9 @@ PROP = "C07"
 
 def body():
     S.store_check(
-        PROP, model_cfgs=["StoreBridge.cfg", "StoreL1.cfg"], gen_cfgs=["StoreGenC07.cfg", "StoreGenL1C07.cfg"], quick_n=300, thorough_n=6000,
+        PROP, model_cfgs=["StoreBridge.cfg", "StoreL1.cfg", "StoreGer.cfg"], gen_cfgs=["StoreGenC07.cfg", "StoreGenC07big.cfg", "StoreGenL1C07.cfg", "StoreGenGerC07.cfg"], quick_n=300, thorough_n=6000,
         counterexamples=[("StoreBridgeF1.cfg", "Inv")],
-        kinds_note="bridge, l1info", invs=["RootsMirror", "ConsecutiveIdx", "BlocksIncrease", "ProofsVerify", "HaltedStops"],
+        kinds_note="bridge, l1info, injected-GER", invs=["RootsMirror", "ConsecutiveIdx", "BlocksIncrease", "ProofsVerify", "HaltedStops"],
         assumptions=[
             "storage faults are injected as SQL triggers on the store's own DB file (INSERT/DELETE statements; SELECTs cannot be failed this way)",
             "context cancellation is injected while a chosen statement runs (slow trigger), the effect is observed after the call returns",
